@@ -5,7 +5,7 @@
    The specification (coq/C16/MpiSpec1.v) is MPI's semantics at P = 1 over typed elements (size, extent).
    This file contains only statements, `exact` proofs and Print Assumptions. *)
 From Coq Require Import ZArith List Bool.
-From ScV Require Import Base.CInt Gen.MpiC16 C11.IoModel C16.MpiModel C16.MpiSpec1 C16.MpiProofs.
+From ScV Require Import Base.CInt Gen.MpiC16 C11.IoModel C16.MpiModel C16.MpiSpec1 C16.MpiProofs C16.MpiGen C16.MpiHist C16.MpiExact.
 Import ListNotations.
 Local Open Scope Z_scope.
 
@@ -74,6 +74,18 @@ Theorem C16_double_int_refuted :
 Proof. exact double_int_refuted. Qed.
 Print Assumptions C16_double_int_refuted.
 
+(* F-C16b in exact form: for MPI_DOUBLE_INT the serial Gatherv (Gather / Allgather(v) / Alltoall are the case displ = 0 or
+   forward to it) agrees with MPI on one rank for ALL buffer contents  if and only if  count = 0, or count = 1 and
+   displacement = 0: the guard `contiguous_ok` of C16_gather / C16_gatherv cannot be weakened for this type except by the
+   empty call, and every other call is a counterexample for suitable buffer contents *)
+Theorem C16_double_int_exact : forall n displ, 0 <= n < 2 ^ 31 -> 0 <= displ < 2 ^ 31 ->
+  ((forall send recv, n * 16 <= len send -> (displ + n) * 16 <= len recv ->
+    exists r', sc_gatherv send n h_MPI_DOUBLE_INT recv n displ h_MPI_DOUBLE_INT = (SUCCESS, Some r') /\
+               coll_ok h_MPI_DOUBLE_INT n displ send recv r')
+   <-> n = 0 \/ (n = 1 /\ displ = 0)).
+Proof. exact double_int_exact. Qed.
+Print Assumptions C16_double_int_exact.
+
 (* Pack: succeeds iff position + count * size <= outsize; then the elements' data bytes are laid out at
    *position and *position advances by count * size; otherwise nothing changes.  No copy leaves a buffer. *)
 Theorem C16_pack : forall inbuf incount t outbuf outsize pos,
@@ -101,6 +113,28 @@ Theorem C16_pack_size : forall incount t, valid_dt t -> 0 <= incount -> incount 
 Proof. exact pack_size_spec. Qed.
 Print Assumptions C16_pack_size.
 
+(* F-C16c: `*position + size > outsize` is computed in `int`: the statement of C16_pack without its last hypothesis
+   (pos + incount * size < 2^31) is false of the code.  A legal position in a buffer of INT_MAX bytes and a request that
+   does not fit: accepted, the copy leaves the buffer, the position becomes negative. *)
+Theorem C16_pack_overflow_refuted :
+  let t := h_MPI_BYTE in let incount := 2 in let outsize := 2 ^ 31 - 1 in let pos := 2 ^ 31 - 2 in
+  valid_dt t /\ 0 <= incount /\ 0 <= pos <= outsize /\ outsize < 2 ^ 31 /\ incount * type_size t < 2 ^ 31 /\
+  outsize < pos + incount * type_size t /\
+  forall inbuf outbuf, len outbuf = outsize -> incount * extent t <= len inbuf ->
+    let '(rc, out', pos') := sc_pack inbuf incount t outbuf outsize pos in
+    rc = SUCCESS /\ out' = None /\ pos' = - 2 ^ 31.
+Proof. exact pack_overflow_refuted. Qed.
+Print Assumptions C16_pack_overflow_refuted.
+
+(* code and position without the buffers (used by the run for positions near INT_MAX) are those of sc_pack *)
+Theorem C16_pack_codes : forall inbuf incount t outbuf outsize pos,
+  len outbuf = outsize -> u64 (pack_bytes incount t) <= len inbuf ->
+  let '(rc, out', pos') := sc_pack inbuf incount t outbuf outsize pos in
+  let '(rc2, pos2, over) := sc_pack_codes incount t outsize pos in
+  rc = rc2 /\ pos' = pos2 /\ (over = true <-> out' = None).
+Proof. exact pack_codes_spec. Qed.
+Print Assumptions C16_pack_codes.
+
 (* rank and size queries (communicators incl. dup / split results, groups): 0 and 1, always stored *)
 Theorem C16_rank_size : forall c color key,
   sc_comm_size c = (SUCCESS, Some 1) /\ sc_comm_rank c = (SUCCESS, Some 0) /\
@@ -121,6 +155,235 @@ Theorem C16_completion : forall reqs, Forall (fun r => r = REQUEST_NULL) reqs ->
 Proof. exact completion_spec. Qed.
 Print Assumptions C16_completion.
 
+(* ================= tie T1 for the bodies of the stubs: model = definitions GENERATED from sc_mpi.c =================
+   stub_xxx (Gen/MpiC16.v) is the translated body of sc_MPI_Xxx: buffers are addresses, a call of memcpy / of another stub
+   is the tuple (called, arguments ..); conventions in tools/c2g/groups_C16.py.  An edit of a byte count, an offset, a
+   forwarded argument, a stored value or a returned code in sc_mpi.c changes the generated definition and breaks these. *)
+
+(* Gather / Gatherv / Reduce: one memcpy (dest + offset, source + offset, bytes) with the model's copy descriptor, for all
+   buffer addresses, counts, datatypes, displacements; sc_MPI_SUCCESS is returned *)
+Theorem C16_gen_gather : forall p np tp q,
+  let '(d, s, n) := gather_copy np tp in stub_gather p np tp q = (1, q + d, p + s, n, SUCCESS).
+Proof. exact gen_gather. Qed.
+Print Assumptions C16_gen_gather.
+
+Theorem C16_gen_gatherv : forall p np tp q displ0 tq,
+  let '(d, s, n) := gatherv_copy np tp displ0 tq in stub_gatherv p np tp q displ0 tq = (1, q + d, p + s, n, SUCCESS).
+Proof. exact gen_gatherv. Qed.
+Print Assumptions C16_gen_gatherv.
+
+Theorem C16_gen_reduce : forall p q n t,
+  let '(d, s, l) := gather_copy n t in stub_reduce p q n t = (1, q + d, p + s, l, SUCCESS).
+Proof. exact gen_reduce. Qed.
+Print Assumptions C16_gen_reduce.
+
+(* Allgather / Alltoall / Allgatherv / Allreduce / Reduce_scatter_block / Scan call Gather / Gatherv / Reduce once with
+   their own arguments in order and root 0 and return its result (the model: sc_allgather := sc_gather, ...) *)
+Theorem C16_gen_forwarders : forall p np tp q nq tq recvc displ n t op comm r,
+  stub_allgather p np tp q nq tq comm r = (1, p, np, tp, q, nq, tq, 0, comm, r) /\
+  stub_alltoall p np tp q nq tq comm r = (1, p, np, tp, q, nq, tq, 0, comm, r) /\
+  stub_allgatherv p np tp q recvc displ tq comm r = (1, p, np, tp, q, recvc, displ, tq, 0, comm, r) /\
+  stub_allreduce p q n t op comm r = (1, p, q, n, t, op, 0, comm, r) /\
+  stub_reduce_scatter_block p q n t op comm r = (1, p, q, n, t, op, 0, comm, r) /\
+  stub_scan p q n t op comm r = (1, p, q, n, t, op, 0, comm, r).
+Proof. exact gen_forwarders. Qed.
+Print Assumptions C16_gen_forwarders.
+
+Theorem C16_gen_nocopy : stub_exscan = SUCCESS /\ stub_bcast = SUCCESS /\ stub_barrier = sc_barrier.
+Proof. exact gen_nocopy. Qed.
+Print Assumptions C16_gen_nocopy.
+
+(* Type_size stores (int) sc_mpi_sizeof (t); Pack_size calls Type_size (t, size) and multiplies what that stored *)
+Theorem C16_gen_sizes : forall incount t sizeptr r,
+  sc_type_size t = (let '(v, rc) := stub_type_size t in (rc, Some v)) /\
+  let '(v, _) := stub_type_size t in
+  stub_pack_size incount t sizeptr r v = (1, t, sizeptr, pack_bytes incount t, SUCCESS) /\
+  sc_pack_size incount t = (SUCCESS, Some (pack_bytes incount t)).
+Proof. intros; split; [exact (gen_type_size t)|exact (gen_pack_size incount t sizeptr r)]. Qed.
+Print Assumptions C16_gen_sizes.
+
+(* Pack / Unpack: Pack_size (count, t, comm, &size) is called; with size = what it stores: the space test in `int`
+   arithmetic, the memcpy, the advance of *position, the returned code - for all addresses and all integers *)
+Theorem C16_gen_pack : forall inbuf incount t outbuf outsize pos comm r,
+  let size := pack_bytes incount t in
+  stub_pack inbuf incount t outbuf outsize pos comm r size =
+  if pack_refuses pos size outsize then (1, incount, t, comm, 0, 0, 0, 0, pos, ERR_NO_SPACE)
+  else let '(d, s, n) := pack_copy pos size in
+       (1, incount, t, comm, 1, outbuf + d, inbuf + s, n, pack_advance pos size, SUCCESS).
+Proof. exact gen_pack. Qed.
+Print Assumptions C16_gen_pack.
+
+Theorem C16_gen_unpack : forall inbuf insize pos outbuf outcount t comm r,
+  let size := pack_bytes outcount t in
+  stub_unpack inbuf insize pos outbuf outcount t comm r size =
+  if pack_refuses pos size insize then (1, outcount, t, comm, 0, 0, 0, 0, pos, ERR_NO_SPACE)
+  else let '(d, s, n) := unpack_copy pos size in
+       (1, outcount, t, comm, 1, outbuf + d, inbuf + s, n, pack_advance pos size, SUCCESS).
+Proof. exact gen_unpack. Qed.
+Print Assumptions C16_gen_unpack.
+
+(* the model's Pack / Unpack ARE the generated control flow, with the generated memcpy applied to the two lists *)
+Theorem C16_gen_pack_model : forall inbuf incount t outbuf outsize pos,
+  sc_pack inbuf incount t outbuf outsize pos =
+  let '(_, _, _, _, called, dst, src, n, pos', rc) := stub_pack 0 incount t 0 outsize pos 0 0 (pack_bytes incount t) in
+  (rc, if called =? 1 then memcpy_at outbuf dst inbuf src n else Some outbuf, pos').
+Proof. exact gen_pack_model. Qed.
+Print Assumptions C16_gen_pack_model.
+
+Theorem C16_gen_unpack_model : forall inbuf insize pos outbuf outcount t,
+  sc_unpack inbuf insize pos outbuf outcount t =
+  let '(_, _, _, _, called, dst, src, n, pos', rc) := stub_unpack 0 insize pos 0 outcount t 0 0 (pack_bytes outcount t) in
+  (rc, if called =? 1 then memcpy_at outbuf dst inbuf src n else Some outbuf, pos').
+Proof. exact gen_unpack_model. Qed.
+Print Assumptions C16_gen_unpack_model.
+
+(* communicators and groups: the value stored through the output pointer and the returned code *)
+Theorem C16_gen_comm : forall c color key,
+  sc_comm_size c = (snd stub_comm_size, Some (fst stub_comm_size)) /\
+  sc_comm_rank c = (snd stub_comm_rank, Some (fst stub_comm_rank)) /\
+  sc_group_size c = (snd stub_group_size, Some (fst stub_group_size)) /\
+  sc_group_rank c = (snd stub_group_rank, Some (fst stub_group_rank)) /\
+  sc_comm_free c = (snd stub_comm_free, Some (fst stub_comm_free)) /\
+  sc_comm_group c = (snd stub_comm_group, Some (fst stub_comm_group)) /\
+  sc_group_free c = (snd stub_group_free, Some (fst stub_group_free)) /\
+  sc_comm_dup c = (snd (stub_comm_dup c), Some (fst (stub_comm_dup c))) /\
+  sc_comm_split c color key = (snd (stub_comm_split c), Some (fst (stub_comm_split c))).
+Proof. exact gen_comm. Qed.
+Print Assumptions C16_gen_comm.
+
+Theorem C16_gen_init_thread : forall provided old,
+  stub_init_thread provided old =
+  if provided =? 0 then (old, fst sc_init_thread)
+  else (match snd sc_init_thread with Some v => v | None => old end, fst sc_init_thread).
+Proof. exact gen_init_thread. Qed.
+Print Assumptions C16_gen_init_thread.
+
+(* completion calls: the generated loops terminate for every request array (shorter than INT_MAX; reqfun reqs i = the i-th
+   request) and every sufficient fuel; `ok` (no SC_CHECK_ABORT fired) is the model's all_null; Testall stores flag = 1,
+   Waitsome stores outcount = 0 *)
+Theorem C16_gen_wait : forall req, stub_wait req = (b2z (req =? REQUEST_NULL), SUCCESS) /\
+  sc_wait req = if z2b (fst (stub_wait req)) then Some (snd (stub_wait req)) else None.
+Proof. exact gen_wait. Qed.
+Print Assumptions C16_gen_wait.
+
+Theorem C16_gen_completion : forall reqs fuel old, len reqs < 2147483647 -> (length reqs < fuel)%nat ->
+  stub_waitall fuel (reqfun reqs) (len reqs) = Some (b2z (all_null reqs), SUCCESS) /\
+  stub_testall fuel (reqfun reqs) (len reqs) old = Some (b2z (all_null reqs), 1, SUCCESS) /\
+  stub_waitsome fuel (reqfun reqs) (len reqs) old = Some (b2z (all_null reqs), 0, SUCCESS) /\
+  sc_waitall reqs = (if all_null reqs then Some SUCCESS else None) /\
+  sc_testall reqs = (if all_null reqs then Some (SUCCESS, Some 1) else None) /\
+  sc_waitsome reqs = (if all_null reqs then Some (SUCCESS, Some 0) else None).
+Proof. exact gen_completion. Qed.
+Print Assumptions C16_gen_completion.
+
+(* Error_class: NULL pointer gives ERR_ARG and stores nothing; else the model *)
+Theorem C16_gen_error_class : forall code ptr old,
+  stub_error_class code ptr old =
+  if ptr =? 0 then (old, ERR_ARG)
+  else (match snd (sc_error_class code) with Some v => v | None => old end, fst (sc_error_class code)).
+Proof. exact gen_error_class. Qed.
+Print Assumptions C16_gen_error_class.
+
+(* Error_string, the whole body for ALL arguments (gen_msg code = the literal of the source handed to snprintf, lit k = the
+   bytes of literal k), the messages = the model's table for ALL codes, and the model under the contract of snprintf *)
+Theorem C16_gen_error_string : forall code str rl old snret,
+  stub_error_string code str rl old snret =
+  if ((str =? 0) || (rl =? 0))%bool then (0, 0, 0, 0, 0, old, ERR_ARG)
+  else match gen_msg code with
+       | None => (0, 0, 0, 0, 0, old, ERR_UNKNOWN)
+       | Some k => if snret <? 0 then (1, str, MAX_ERROR_STRING, gen_fmt, k, old, h_MPI_ERR_NO_MEM)
+                   else (1, str, MAX_ERROR_STRING, gen_fmt, k, (if MAX_ERROR_STRING <=? snret then MAX_ERROR_STRING - 1 else snret), SUCCESS)
+       end.
+Proof. exact gen_error_string. Qed.
+Print Assumptions C16_gen_error_string.
+
+Theorem C16_gen_error_string_table : forall code,
+  option_map lit (gen_msg code) = message_of code error_messages /\ lit gen_fmt = [37; 115].
+Proof. exact gen_error_string_table. Qed.
+Print Assumptions C16_gen_error_string_table.
+
+Theorem C16_gen_error_string_model : forall code str rl old, str <> 0 -> rl <> 0 ->
+  match sc_error_string code with
+  | (rc, Some txt, Some n) =>
+      0 < len txt < MAX_ERROR_STRING /\ rc = SUCCESS /\ n = len txt /\
+      exists k, lit k = txt /\ stub_error_string code str rl old (len txt) = (1, str, MAX_ERROR_STRING, gen_fmt, k, n, rc)
+  | (rc, None, None) => forall snret, stub_error_string code str rl old snret = (0, 0, 0, 0, 0, old, rc)
+  | _ => False
+  end.
+Proof. exact gen_error_string_model. Qed.
+Print Assumptions C16_gen_error_string_model.
+
+(* sc_mpi_sizeof in the configuration WITH MPI (the same source translated against OpenMPI's mpi.h, where the predefined
+   handles are addresses of global objects): for ANY placement of the 15 objects at pairwise different addresses it gives
+   for the k-th handle what the serial one gives for the k-th serial handle, i.e. MPI_Type_size *)
+Theorem C16_gen_sizeof_mpi : forall base : Z -> Z,
+  (forall i j, 0 <= i < 15 -> 0 <= j < 15 -> base i = base j -> i = j) ->
+  forall k, 0 <= k < 15 ->
+  sc_mpi_sizeof_mpi (base k) (base 0) (base 1) (base 2) (base 3) (base 4) (base 5) (base 6) (base 7) (base 8) (base 9)
+                    (base 10) (base 11) (base 12) (base 13) (base 14)
+  = sc_mpi_sizeof (nth (Z.to_nat k) serial_handles 0) /\
+  valid_dt (nth (Z.to_nat k) serial_handles 0) /\
+  sc_mpi_sizeof (nth (Z.to_nat k) serial_handles 0) = type_size (nth (Z.to_nat k) serial_handles 0).
+Proof. exact gen_sizeof_mpi. Qed.
+Print Assumptions C16_gen_sizeof_mpi.
+
+(* ================= histories ================= *)
+(* Pack several items one after the other into one buffer (each call continues at the position the previous one left),
+   then Unpack them with the same datatypes and counts from the same start: every Unpack delivers the bytes that were
+   packed, the position after the i-th Pack equals the position after the i-th Unpack for every i, the final positions
+   agree, the buffer outside [pos, final) is untouched *)
+Theorem C16_pack_unpack_roundtrip : forall items outs buf pos buf' posN ps, Forall item_ok items ->
+  Forall2 (fun it o => len (it_data it) <= len o) items outs -> 0 <= pos <= len buf -> pos + total items < 2 ^ 31 ->
+  pack_seq items buf pos = Some (buf', posN, ps) ->
+  unpack_seq (shape_of items outs) buf' pos = Some (delivered items outs, posN, ps) /\
+  posN = pos + total items /\ posN <= len buf /\ len buf' = len buf /\
+  take pos buf' = take pos buf /\ drop posN buf' = drop posN buf.
+Proof. exact pack_unpack_roundtrip. Qed.
+Print Assumptions C16_pack_unpack_roundtrip.
+
+(* a sequence of Packs is accepted as a whole iff everything fits: some call refuses otherwise *)
+Theorem C16_pack_seq_refuses : forall items buf pos, Forall item_ok items -> 0 <= pos <= len buf -> pos + total items < 2 ^ 31 ->
+  (pack_seq items buf pos = None <-> len buf < pos + total items).
+Proof. exact pack_seq_refuses. Qed.
+Print Assumptions C16_pack_seq_refuses.
+
+Theorem C16_pack_twice_is_pack_once : forall t n1 n2 d1 d2 buf pos, item_ok (t, n1, d1) -> item_ok (t, n2, d2) ->
+  0 <= pos <= len buf -> pos + len d1 + len d2 < 2 ^ 31 ->
+  match pack_seq [(t, n1, d1); (t, n2, d2)] buf pos, pack_seq [(t, n1 + n2, d1 ++ d2)] buf pos with
+  | Some (b, p, _), Some (b', p', _) => b = b' /\ p = p'
+  | None, None => True
+  | _, _ => False
+  end.
+Proof. exact pack_twice_is_pack_once. Qed.
+Print Assumptions C16_pack_twice_is_pack_once.
+
+(* the position at the boundary: exact fit, one byte too many, nothing to pack at position = size *)
+Theorem C16_pack_boundary : forall t n d buf pos, item_ok (t, n, d) -> 0 <= pos <= len buf -> pos + len d < 2 ^ 31 ->
+  (pos + len d = len buf -> sc_pack d n t buf (len buf) pos = (SUCCESS, Some (take pos buf ++ d), len buf)) /\
+  (pos + len d = len buf + 1 -> sc_pack d n t buf (len buf) pos = (ERR_NO_SPACE, Some buf, pos)) /\
+  (n = 0 -> sc_pack d n t buf (len buf) pos = (SUCCESS, Some buf, pos)).
+Proof. exact pack_boundary. Qed.
+Print Assumptions C16_pack_boundary.
+
+Theorem C16_unpack_boundary : forall t n o buf pos, valid_dt t -> 0 <= n -> n * type_size t <= len o -> 0 <= pos <= len buf ->
+  pos + n * type_size t < 2 ^ 31 ->
+  (pos + n * type_size t = len buf ->
+   sc_unpack buf (len buf) pos o n t = (SUCCESS, Some (drop pos buf ++ drop (n * type_size t) o), len buf)) /\
+  (pos + n * type_size t = len buf + 1 -> sc_unpack buf (len buf) pos o n t = (ERR_NO_SPACE, Some o, pos)) /\
+  (n = 0 -> sc_unpack buf (len buf) pos o n t = (SUCCESS, Some o, pos)).
+Proof. exact unpack_boundary. Qed.
+Print Assumptions C16_unpack_boundary.
+
+(* reuse of outputs: Gather, Allreduce of the gathered buffer, Scan of that result *)
+Theorem C16_collective_chain : forall p q r s n t op, valid_dt t -> 0 <= n < 2 ^ 31 ->
+  n * type_size t <= len p -> n * type_size t <= len q -> n * type_size t <= len r -> n * type_size t <= len s ->
+  exists q' r' s', sc_gather p n t q n t = (SUCCESS, Some q') /\ sc_allreduce q' r n t op = (SUCCESS, Some r') /\
+                   sc_scan r' s n t op = (SUCCESS, Some s') /\
+                   len q' = len q /\ len r' = len r /\
+                   s' = take (n * type_size t) p ++ drop (n * type_size t) s.
+Proof. exact collective_chain. Qed.
+Print Assumptions C16_collective_chain.
+
 (* the hypotheses are satisfiable by non-trivial inputs *)
 Example C16_ex_gatherv : valid_dt h_MPI_INT /\ contiguous_ok h_MPI_INT 2 1 /\
   sc_gatherv [1;2;3;4;5;6;7;8] 2 h_MPI_INT (repeat 238 16) 2 1 h_MPI_INT
@@ -129,4 +392,20 @@ Proof. split; [eexists; vm_compute; reflexivity|]. split; [left; reflexivity|vm_
 
 Example C16_ex_pack : sc_pack [1;2;3;4;5;6;7;8] 2 h_MPI_INT (repeat 238 9) 9 1 = (SUCCESS, Some [238;1;2;3;4;5;6;7;8], 9) /\
   sc_pack [1;2;3;4;5;6;7;8] 2 h_MPI_INT (repeat 238 9) 9 2 = (ERR_NO_SPACE, Some (repeat 238 9), 2).
+Proof. vm_compute. split; reflexivity. Qed.
+
+(* three items of different types packed at position 3 into 20 bytes and unpacked again *)
+Example C16_ex_roundtrip :
+  let items := [(h_MPI_BYTE, 2, [1; 2]); (h_MPI_INT, 1, [3; 4; 5; 6]); (h_MPI_SHORT, 2, [7; 8; 9; 10])] in
+  Forall item_ok items /\
+  pack_seq items (repeat 238 20) 3 = Some ([238;238;238;1;2;3;4;5;6;7;8;9;10;238;238;238;238;238;238;238], 13, [5; 9; 13]) /\
+  unpack_seq (shape_of items [[0;0;0]; [0;0;0;0]; [0;0;0;0;0]]) [238;238;238;1;2;3;4;5;6;7;8;9;10;238;238;238;238;238;238;238] 3
+  = Some ([[1;2;0]; [3;4;5;6]; [7;8;9;10;0]], 13, [5; 9; 13]) /\
+  pack_seq items (repeat 238 12) 3 = None.
+Proof.
+  split; [repeat constructor; try (eexists; vm_compute; reflexivity); vm_compute; congruence|]. vm_compute. repeat split.
+Qed.
+
+Example C16_ex_gen_completion : stub_testall 4 (reqfun [REQUEST_NULL; REQUEST_NULL; REQUEST_NULL]) 3 (-5) = Some (1, 1, 0) /\
+  stub_waitsome 4 (reqfun [REQUEST_NULL; 7; REQUEST_NULL]) 3 (-5) = Some (0, 0, 0).
 Proof. vm_compute. split; reflexivity. Qed.
